@@ -3053,7 +3053,7 @@ impl StrName {
                         let next = ps.next()?;
                         match next {
                             ';' => break,
-                            'a'..='z' | 'A'..='Z' => {}
+                            'a'..='z' | 'A'..='Z' | '0'..='9' => {}
                             _ => {
                                 return None;
                             }
